@@ -115,7 +115,7 @@ inductive Chain (U : Universe) (m : Nat) : World → Fn → ArgCtx → Env → P
   /-- every parameter value is known to the analysis (entry call; literals and defaults) -/
   | const (W : World) (fn : Fn) (inner : Option Sg) (vals : Vals) :
       vals.map (fun x => x.1) = fn.params.map Param.name →
-      (∀ x ∈ vals, ddsHash m x.2.1 = .ok x.2.2 ∧ U.vals x.2.1) →
+      (∀ x ∈ vals, ddsHash m x.2.1 = .ok x.2.2 ∧ U.avals x.2.1) →
       Chain U m W fn ⟨vals.named, inner⟩ vals.env
   /-- some argument is computed at run time: the analysis uses the context signature of the call site -/
   | site (W : World) (caller : Fn) (cctx : ArgCtx) (cenv : Env) (fuel : Nat) (stack : List String) (refs : Refs)
@@ -169,7 +169,7 @@ theorem arg_perm_eq (c₁ c₂ : List (String × Sg)) (hnames : c₁.map Prod.fs
 
 /-- equal (name, hash) lists of known values ⇒ equal environments -/
 theorem vals_env_eq (U : Universe) {m : Nat} : ∀ (v w : Vals), v.hashes = w.hashes →
-    (∀ x ∈ v, ddsHash m x.2.1 = .ok x.2.2 ∧ U.vals x.2.1) → (∀ x ∈ w, ddsHash m x.2.1 = .ok x.2.2 ∧ U.vals x.2.1) →
+    (∀ x ∈ v, ddsHash m x.2.1 = .ok x.2.2 ∧ U.avals x.2.1) → (∀ x ∈ w, ddsHash m x.2.1 = .ok x.2.2 ∧ U.avals x.2.1) →
     v.env = w.env
   | [], [], _, _, _ => rfl
   | [], _ :: _, h, _, _ => by simp [Vals.hashes] at h
@@ -182,7 +182,7 @@ theorem vals_env_eq (U : Universe) {m : Nat} : ∀ (v w : Vals), v.hashes = w.ha
     have h2 := hw _ mem_cons_self
     have e1 := ddsHash_eq_hashC m _ _ h1.1
     have e2 := ddsHash_eq_hashC m _ _ h2.1
-    have : a = b := U.varsInj a b h1.2 h2.2 (hashC_inj _ _ (canonKF_wf _) (canonKF_wf _) (e1.symm.trans e2))
+    have : a = b := U.argsInj a b h1.2 h2.2 (hashC_inj _ _ (canonKF_wf _) (canonKF_wf _) (e1.symm.trans e2))
     subst this
     have := vals_env_eq U v w ht (fun x hx => hv x (mem_cons_of_mem _ hx)) (fun x hx => hw x (mem_cons_of_mem _ hx))
     simp only [Vals.env, map_cons, cons.injEq, true_and]
